@@ -5,6 +5,11 @@ LEVEL = "other"
 RULES = {"C10.R1", "C10.R2", "C10.R3", "C10.R4"}
 
 
+def extra(res, facts, entries, protos):
+    # no token, nonce or entropy is remembered from one build to the next (anywhere below the 8 local builder entry points)
+    _proto.state_rule(res, "C10.R5", facts, entries)
+
+
 def run(tier):
     return _proto.run_rules(
         "C10", LEVEL, RULES,
@@ -12,4 +17,4 @@ def run(tier):
         "provenance terms: each of the 4 GenericBuilder::<V, Local>::try_encrypt passes PasetoNonce::from(&Key::<N>::try_new_random()?) - drawn inside the function on every path to the core call, with no self / static / constant leaf - "
         "to the core encryptor; try_new_random returns a buffer handed whole to SystemRandom::fill whose Result gates the Ok return; all drawn bytes reach the wire (verbatim v3/v4, as MAC key of the nonce derivation v1/v2); the prelude builders only delegate",
         ["ring::rand::SystemRandom is a CSPRNG: draws are unpredictable and collide with negligible probability"],
-        None, "the statistical statement (pairwise distinct nonces over 10^5 builds, per-bit frequency): a property of histories of the OS CSPRNG", sem_rules={'C10.S3': 4})
+        extra, "the statistical statement (pairwise distinct nonces over 10^5 builds, per-bit frequency): a property of histories of the OS CSPRNG", sem_rules={'C10.S3': 4})
